@@ -184,7 +184,8 @@ func (c *Client) HandlePresence(p stanza.Presence, r xmlstream.TokenReadEncoder)
 	// the channel.
 	c.managedM.Lock()
 	defer c.managedM.Unlock()
-	channel, ok := c.managed[p.From.String()]
+	key := p.From.String()
+	channel, ok := c.managed[key]
 	// TODO: what do we do with presences that aren't managed?
 	if !ok {
 		return nil
@@ -205,6 +206,7 @@ func (c *Client) HandlePresence(p stanza.Presence, r xmlstream.TokenReadEncoder)
 		case c := <-channel.join:
 			select {
 			case c.j <- p.From:
+				channel.joined = true
 				return nil
 			case <-c.done:
 				// If the call to Join has timed out, try again to see if we have a
@@ -218,7 +220,8 @@ func (c *Client) HandlePresence(p stanza.Presence, r xmlstream.TokenReadEncoder)
 			c.HandleUserPresence(decodedPresence.Presence, decodedPresence.X.Item)
 		}
 	case stanza.UnavailablePresence:
-		delete(c.managed, channel.addr.String())
+		delete(c.managed, key)
+		channel.joined = false
 		select {
 		case channel.depart <- struct{}{}:
 		default:
